@@ -260,6 +260,36 @@ func (c *Ctl) NewConn() *ConnH {
 	return ch
 }
 
+// NewConnRaw opens a connection on a server whose implementation is not the scripted one (no
+// ConnOpened callback to learn the *Conn from): the connection is looked up in the server's table.
+func (c *Ctl) NewConnRaw() *ConnH {
+	before := map[*go9p.Conn]bool{}
+	for _, x := range go9p.VerifSrvConns(c.Srv) {
+		before[x] = true
+	}
+	a, b := net.Pipe()
+	ch := &ConnH{Idx: len(c.Conns), cli: b, wq: make(chan []byte, 4096)}
+	c.Conns = append(c.Conns, ch)
+	go func() {
+		for b := range ch.wq {
+			if _, err := ch.cli.Write(b); err != nil {
+				return
+			}
+		}
+	}()
+	c.Srv.NewConn(a)
+	for _, x := range go9p.VerifSrvConns(c.Srv) {
+		if !before[x] {
+			ch.Conn = x
+			c.mu.Lock()
+			c.connIdx[x] = ch.Idx
+			c.mu.Unlock()
+		}
+	}
+	c.Wait()
+	return ch
+}
+
 // registerConn is called from ConnOpened (the first time the library shows us the *Conn).
 func (c *Ctl) registerConn(conn *go9p.Conn) {
 	c.mu.Lock()
